@@ -40,7 +40,7 @@ MANIFEST = {
                  'pairs; stack/level invariants checked at every probe and '
                  'after the call',
     'text': 'All ordered forests of <= 3 (quick) / <= 4 (thorough) block '
-            'nodes over 24 block kinds (in, batched in, in mapping, in over mixed pushed / unpushed items, in / batched in over an empty sequence with the blocks in the else branch, if with three named conditions, with, with only, '
+            'nodes over 26 block kinds (in, batched in, in mapping, in over mixed pushed / unpushed items, in / batched in over an empty sequence with the blocks in the else branch, if with three named conditions, with, with only, '
             'let, if, try body, try handler, try/finally body, finally, '
             'raise, sub-template, tree, tree with expand_all + '
             'branches_expr) are run on the real code as a sub-template call '
@@ -57,7 +57,7 @@ MANIFEST = {
             'states.',
 }
 DYNAMIC = True        # few heavy cases: dynamic load balancing
-RULE = ('programs: forests of <= 3 / <= 4 block nodes over 24 kinds; faults: '
+RULE = ('programs: forests of <= 3 / <= 4 block nodes over 26 kinds; faults: '
         'none, one (each ordinal x {raise HB, return}), two (second at every '
         'later ordinal; quick: for programs of <= 2 blocks).  A run is '
         'non-trivial when a fault fired (control flow was changed).')
@@ -66,7 +66,8 @@ ASSUMPTIONS = ['tree rendering needs URL and RESPONSE in the namespace; the '
 CASE_CPU_SECONDS = 300.0
 CASE_CPU_SECONDS_QUICK = 120.0
 
-KINDS = ('in', 'inb', 'inmap', 'inbmap', 'inmix', 'inbmix', 'inempty', 'inbempty', 'if2', 'with', 'withonly', 'let', 'if', 'try', 'tryh',
+KINDS = ('in', 'inb', 'inmap', 'inbmap', 'inmix', 'inbmix', 'insortx',
+         'inbvars', 'inempty', 'inbempty', 'if2', 'with', 'withonly', 'let', 'if', 'try', 'tryh',
          'tryf', 'fin', 'raise', 'sub', 'subtuple', 'tree', 'treex', 'treedm', 'treedp')
 LEAF_ONLY = ('withonly', 'tree', 'treex', 'treedm', 'treedp')     # no nested blocks inside
 SYNTAXES = ('dtml', 'ssi', 'epfs')
@@ -155,6 +156,25 @@ class Builder:
             n = ['if', [[N('c%d' % k), [T('no')]], [N('d%d' % k), [T('no')]],
                         [N('e%d' % k), inner]],
                  [self.probe('else%d' % k)]]
+        elif kind in ('insortx', 'inbvars'):
+            # the sequence by name; sort / reverse expressions (insortx) or
+            # the batch parameters (inbvars) are invocation points that may
+            # raise while the tag prepares the sequence
+            ns['seq%d' % k] = ['probe', 'seq%d' % k, [
+                'seq', 'list', [['obj', {'e': ['lit', 2]}],
+                                ['obj', {'e': ['lit', 1]}]]]]
+            if kind == 'insortx':
+                ns['sx%d' % k] = ['probe', 'sx%d' % k, ['lit', 'e']]
+                ns['rx%d' % k] = ['probe', 'rx%d' % k, ['lit', 1]]
+                opts = [['sort_expr', 'sx%d()' % k],
+                        ['reverse_expr', 'rx%d()' % k]]
+            else:
+                for p_ in ('st', 'sz', 'orp', 'ov'):
+                    ns['%s%d' % (p_, k)] = ['probe', '%s%d' % (p_, k),
+                                            ['lit', 1]]
+                opts = [['start', 'st%d' % k], ['size', 'sz%d' % k],
+                        ['orphan', 'orp%d' % k], ['overlap', 'ov%d' % k]]
+            n = ['in', N('seq%d' % k), inner, [T('empty')], opts]
         elif kind in ('inmap', 'inbmap'):
             # mappings as items, one of them empty (a falsy frame)
             ns['seq%d' % k] = ['probe', 'seq%d' % k, [
